@@ -60,6 +60,31 @@ func VerifC14Step() {
 	if ret != nil {
 		vAssert(!vShares(ret, st), "result-is-private-copy")
 	}
+	// ... and no two answers share storage with each other (so editing one cannot show up in another)
+	var snaps []interface{}
+	if ret != nil {
+		snaps = append(snaps, ret)
+	}
+	snaps = append(snaps, st.Me())
+	for i := 0; i < vNN; i++ {
+		if m.nOn[i] {
+			if n := st.GetNick(m.nName[i]); n != nil {
+				snaps = append(snaps, n)
+			}
+		}
+	}
+	for j := 0; j < vNC; j++ {
+		if m.cOn[j] {
+			if c := st.GetChannel(m.cName[j]); c != nil {
+				snaps = append(snaps, c)
+			}
+		}
+	}
+	for i := range snaps {
+		for k := 0; k < i; k++ {
+			vAssert(!vShares(snaps[i], snaps[k]), "answers-share-nothing-with-each-other")
+		}
+	}
 	vAssert(vInv(st), "invariant")
 	vReach("end")
 }
